@@ -16,6 +16,7 @@ import (
 	"git.sr.ht/~adrian-blx/psa-dhcp/lib/dhcpmsg"
 	"git.sr.ht/~adrian-blx/psa-dhcp/lib/layer"
 	"git.sr.ht/~adrian-blx/psa-dhcp/lib/oui"
+	"git.sr.ht/~adrian-blx/psa-dhcp/lib/rsocks"
 	"git.sr.ht/~adrian-blx/psa-dhcp/lib/server/ylog"
 )
 
@@ -207,4 +208,70 @@ func TestC10Handlers(t *testing.T) {
 		}
 	})
 	vl.write(t, "c10handlers", st.meta(int(atomic.LoadInt64(&vl.n)), "handleMsg called directly for hlen 0..16 x DISCOVER/REQUEST x ARP answers from a foreign address / from the client's first octets / from nobody"))
+}
+
+// TestC10Flood: "no sequence of byte strings ... makes the server hang": more irrelevant datagrams than any counter or pool of the
+// receive loop could hold (other servers' replies, undecodable payloads, non-UDP packets) arrive within one Run(); a DISCOVER that
+// follows must be answered like the first one was.
+func TestC10Flood(t *testing.T) {
+	vl := &violationLog{}
+	synctest.Test(t, func(t *testing.T) {
+		r := newRand(1011)
+		netU := uint32(0x0a640000)
+		cfg := srvCfg{netU: netU, maskU: 0xffffff00, bits: 24, lease: time.Minute, selfIP: netU + 1, selfMAC: []byte{2, 0xaa, 0, 0, 0, 1},
+			hasRange: true, rangeB: netU + 10, rangeE: netU + 12, router: ipStr(netU + 1)}
+		s, err := startServer(t, cfg)
+		if err != nil {
+			t.Fatalf("server.New: %v", err)
+		}
+		defer s.stop()
+		cl := &simClient{mac: []byte{2, 0xbb, 0, 0, 9, 1}, xid: 0x01020304}
+		atomic.AddInt64(&vl.n, 1)
+		if o := s.round(cl.discover(0, 0), nil); len(o.outs) != 1 {
+			vl.add("c10-flood", "a DISCOVER on a fresh server got %d replies", len(o.outs))
+			return
+		}
+		n := scale(2500, 140000)
+		other := &simClient{mac: []byte{2, 0xbb, 0, 0, 9, 2}, xid: 7}
+		for i := 0; i < n; i++ {
+			var b []byte
+			switch i % 4 {
+			case 0: // a reply of some other server (BOOTREPLY)
+				m := other.msg(2, 0, 0)
+				m.op = 2
+				b = udpip(netU+7, 0xffffffff, 67, 68, 17, 64, m.bytes())
+			case 1: // undecodable option area
+				m := other.msg(1, 0, 0)
+				m.rawOpts = []byte{53, 1}
+				b = udpip(0, 0xffffffff, 68, 67, 17, 64, m.bytes())
+			case 2: // not UDP
+				b = udpip(0, 0xffffffff, 68, 67, 6, 64, other.msg(1, 0, 0).bytes())
+			default:
+				b = randBytes(r, 20+r.Intn(200))
+			}
+			s.seg.Inject(rsocks.KindIP, b)
+			if i%64 == 63 {
+				time.Sleep(time.Millisecond) // let the receive loop drain its socket
+			}
+		}
+		time.Sleep(2 * time.Second)
+		cl2 := &simClient{mac: []byte{2, 0xbb, 0, 0, 9, 3}, xid: 0x0a0b0c0d}
+		atomic.AddInt64(&vl.n, 1)
+		before := len(s.seg.Frames())
+		s.seg.Inject(rsocks.KindIP, cl2.discover(0, 0))
+		time.Sleep(3 * time.Second)
+		got := 0
+		for _, f := range s.seg.Frames()[before:] {
+			if f.Kind == rsocks.KindIP {
+				if rp := parseReply(f.Payload); rp.ok && rp.typ == 2 && rp.msg.xid == cl2.xid {
+					got++
+				}
+			}
+		}
+		if got != 1 {
+			vl.add("c10-flood", "after %d irrelevant datagrams (replies of another server, undecodable option areas, non-UDP, random bytes) a DISCOVER got %d OFFERs within 3 s", n, got)
+		}
+	})
+	vl.write(t, "c10flood", map[string]interface{}{"distinct_nontrivial": int(atomic.LoadInt64(&vl.n)), "histogram": map[string]int{"flood:discover-after": 1},
+		"samples": []string{"2 500 / 140 000 irrelevant datagrams through the real receive loop, then a DISCOVER that must be answered"}})
 }
